@@ -79,6 +79,70 @@ def run_hist(table, hist, probe=None):
         rig.close()
 
 
+def run_pipelined(table, hist, newuser, probe, with_worker):
+    """the client does not wait for the reply to USER: everything sent after the USER line must already be treated
+    as not logged in - also while a transfer worker of the old login is still pending"""
+    conf = Conf(TABLES[table], TREE)
+    spy = backends.SpyControl()
+    rig = conf.new_rig(spy=spy)
+    model = conf.new_model()
+    problems = []
+    try:
+        rig.ev(0, "@connect")
+        w = rig.world
+        for line in hist:
+            conf_step(rig, model, line, conf)
+        if rig.sessions[0].closed():
+            return [], 0
+        pre = []
+        if with_worker:
+            if not model.logged:
+                return [], 0
+            conf_step(rig, model, "PASV", conf)
+            pre = ["LIST /"]            # no data connection is made: its worker waits for wait_future_timeout
+        s0 = rig.sessions[0]
+        snap_before = rig.snapshot()
+        lines = pre + ["USER " + newuser, probe]
+        s0.send(("\r\n".join(lines) + "\r\n").encode())
+        w.settle(0)
+        codes = [c for c, _ in s0.ctl.take_replies()]
+        u = model.lookup_user(newuser)
+        logged_after = u is not None and u.password is None
+        verb = probe.partition(" ")[0].lower()
+        want = len(lines)
+        if len(codes) < want:
+            problems.append({"kind": "pipelined-reply-missing", "sent": lines, "codes": codes})
+        elif not logged_after and verb in GUARDED and codes[want - 1][:1] in "123":
+            problems.append({"kind": "served-after-reuser-before-login", "sent": lines, "codes": codes})
+        if not logged_after and rig.snapshot() != snap_before:
+            problems.append({"kind": "tree-changed-after-reuser-before-login", "sent": lines, "codes": codes})
+        for p in problems:
+            p["history"] = list(hist)
+        return problems, w.net.n_events
+    finally:
+        rig.close()
+
+
+def pipelined_work(item):
+    table, hist = item
+    part = report.Partial()
+    for newuser in ("bob", "nobody", "alice"):
+        for probe in ("MKD /pwned", "PWD", "DELE /g", "RETR /g", "CWD /d", "PASV", "MLST /g", "RNFR /g", "STOR /up"):
+            for with_worker in (False, True):
+                problems, nev = run_pipelined(table, hist, newuser, probe, with_worker)
+                part.evaluations += 1
+                part.traces += 1
+                part.transitions += len(hist) + 3
+                k = report.fp([table, hist, newuser, probe, with_worker])
+                part.states.add(k)
+                part.nontrivial.add(k)
+                for p in problems[:1]:
+                    part.violation({"kind": p["kind"], "verb": probe.partition(" ")[0], "pending_worker": with_worker},
+                                   {"problem": p, "table": table},
+                                   replay={"pipelined": [table, list(hist), newuser, probe, with_worker]})
+    return part
+
+
 def expand(item):
     table, hist, probe = item
     part = report.Partial()
@@ -123,6 +187,9 @@ def bfs(table, depth):
     for part, key, dead in report.pmap(expand, items):
         total.merge(part)
     total.counters[f"{table}_probes"] = len(items)
+    for part in report.pmap(pipelined_work, [(table, h) for h in states]):
+        total.merge(part)
+    total.counters[f"{table}_pipelined_states"] = len(states)
     return total
 
 
@@ -143,6 +210,10 @@ def run(tier, seed, t0):
 def replay(path):
     data = json.loads(open(path).read())
     rp = data["replay"]
+    if "pipelined" in rp:
+        problems, nev = run_pipelined(*rp["pipelined"])
+        print(json.dumps(problems, indent=1, default=repr))
+        return 1 if problems else 0
     problems, key, closed, nev = run_hist(rp["table"], rp["history"], rp["probe"])
     print(json.dumps(problems, indent=1, default=repr))
     return 1 if problems else 0
